@@ -245,6 +245,8 @@ func main() {
 		chunk(*in, *out, *all)
 	case "version":
 		version(*in, *out)
+	case "config":
+		configTables(*in, *out)
 	default:
 		fmt.Fprintln(os.Stderr, "unknown -what")
 		os.Exit(2)
